@@ -1,6 +1,7 @@
 package main
 
 import (
+	"os"
 	"go/constant"
 	"fmt"
 	"go/token"
@@ -120,6 +121,9 @@ func (a *Activation) callCommon(c *ssa.CallCommon, st *State, pos token.Pos, pre
 // callStatic: call of a known function (possibly an instantiation wrapper).
 func (a *Activation) callStatic(fn *ssa.Function, args []Val, bindings []Val, st *State, pos token.Pos, sig *types.Signature) (*State, []Val) {
 	out, res := a.callStatic0(fn, args, bindings, st, pos, sig)
+	if os.Getenv("FSV_DEBUG") != "" {
+		fmt.Fprintln(os.Stderr, "callStatic", fullName(a.fn), "->", fullName(fn), "out nil", out == nil, "dead", out != nil && out.dead)
+	}
 	if out != nil && !out.dead {
 		if con := a.rootContract(); con != nil {
 			target := fn
@@ -725,7 +729,25 @@ func (a *Activation) invoke(recv Val, m *types.Func, args []Val, sig *types.Sign
 		if con := a.rootContract(); con != nil {
 			for _, c := range con.Clauses {
 				if c.Kind == "oncall" && c.Name == m.Name() {
+					ra := a.rootAct()
+					if len(res) > 0 {
+						ra.lets["callresult"] = res[0]
+					}
+					for ri, rv := range res {
+						ra.lets[fmt.Sprintf("callresult_%d", ri)] = rv
+					}
+					ra.lets["callarg_0"] = recv
+					for ai, av := range args {
+						ra.lets[fmt.Sprintf("callarg_%d", ai+1)] = av
+					}
 					a.ghostAssign(out, c)
+					for ai := 0; ai <= len(args); ai++ {
+						delete(ra.lets, fmt.Sprintf("callarg_%d", ai))
+					}
+					delete(ra.lets, "callresult")
+					for ri := range res {
+						delete(ra.lets, fmt.Sprintf("callresult_%d", ri))
+					}
 				}
 			}
 		}
@@ -761,7 +783,8 @@ func (a *Activation) invoke0(recv Val, m *types.Func, args []Val, sig *types.Sig
 	if st2, res, ok := a.model("iface:"+iname, nil, append([]Val{recv}, args...), st, pos, sig); ok {
 		return st2, res
 	}
-	if cons := t.eng.con.Funcs[iname]; len(cons) > 0 {
+	// (a 'dyntype' hint of the contract under verification is more specific than an interface-level contract)
+	if cons := t.eng.con.Funcs[iname]; len(cons) > 0 && len(a.hintedTypes(IT)) == 0 {
 		return a.opaqueWithContract(cons[0], recv, m.Name(), args, sig, st, pos)
 	}
 	// 3. closed world of module types implementing the interface, or the candidates named by a
